@@ -1,0 +1,90 @@
+//go:build verif
+
+package compiler
+
+import (
+	"encoding/json"
+	"fmt"
+	"os"
+	"path/filepath"
+	"sync"
+
+	"github.com/grafana/cog/internal/ast"
+)
+
+// Trace hooks of the verification harness (hook H2). When the environment
+// variable COG_VERIF_TRACE names a directory, every Passes.Process call
+// appends to <dir>/trace-<pid>.ndjson: the chain (pass types and the schemas
+// it was handed), the schemas after every pass, and the final schemas.
+
+var (
+	verifMu      sync.Mutex
+	verifFile    *os.File
+	verifChainID int
+)
+
+func verifWrite(record map[string]any) {
+	dir := os.Getenv("COG_VERIF_TRACE")
+	if dir == "" {
+		return
+	}
+
+	raw, err := json.Marshal(record)
+	if err != nil {
+		return
+	}
+
+	if verifFile == nil {
+		verifFile, err = os.OpenFile(filepath.Join(dir, fmt.Sprintf("trace-%d.ndjson", os.Getpid())), os.O_APPEND|os.O_CREATE|os.O_WRONLY, 0o644)
+		if err != nil {
+			verifFile = nil
+			return
+		}
+	}
+
+	_, _ = verifFile.Write(append(raw, '\n'))
+}
+
+func verifChainStart(passes Passes, schemas ast.Schemas) int {
+	if os.Getenv("COG_VERIF_TRACE") == "" {
+		return 0
+	}
+
+	verifMu.Lock()
+	defer verifMu.Unlock()
+
+	verifChainID++
+	names := make([]string, 0, len(passes))
+	for _, pass := range passes {
+		names = append(names, fmt.Sprintf("%T", pass))
+	}
+	verifWrite(map[string]any{"ev": "start", "chain": verifChainID, "passes": names, "schemas": schemas})
+
+	return verifChainID
+}
+
+func verifAfterPass(chain int, pass Pass, schemas ast.Schemas, err error) {
+	if chain == 0 {
+		return
+	}
+
+	verifMu.Lock()
+	defer verifMu.Unlock()
+
+	record := map[string]any{"ev": "pass", "chain": chain, "pass": fmt.Sprintf("%T", pass), "params": pass, "failed": err != nil}
+	if err == nil {
+		record["schemas"] = schemas
+	}
+	verifWrite(record)
+}
+
+func verifChainEnd(chain int, schemas ast.Schemas) {
+	if chain == 0 {
+		return
+	}
+
+	verifMu.Lock()
+	defer verifMu.Unlock()
+
+	verifWrite(map[string]any{"ev": "end", "chain": chain, "schemas": schemas})
+}
